@@ -127,10 +127,14 @@ ITEMS = {"v": ["v"], "[]": [], "[v,null]": ["v", None], "[v,v]": ["v", "v"]}
 def make_resolver(sm):
     """The schema-wide resolver: looks the field's response path up in the world (= context value)."""
     from py_gql.exc import ResolverError
+    from py_gql.execution import default_resolver
 
     types = sm["types"]
 
     def resolver(root, ctx, info, **args):
+        if info.parent_type.name.startswith("__"):
+            # introspection types keep the library's own attribute lookup
+            return default_resolver(root, ctx, info, **args)
         world = ctx["world"]
         calls = ctx.get("calls")
         pathkey = "/".join(str(p) for p in info.path)
